@@ -1186,9 +1186,9 @@ impl<'a> Iterator for FindNoCaseTextIter<'a> {
                     let beginbytepos = resource
                         .subslice_utf8_offset(text)
                         .expect("bytepos must be valid");
-                    let text = text.to_lowercase();
-                    if let Some(foundbytepos) = text.find(self.fragment.as_str()) {
-                        let endbytepos = foundbytepos + self.fragment.len(); //MAYBE TODO: possible issue if uppercase and lowercase variants have different byte length!
+                    if let Some((foundbytepos, endbytepos)) =
+                        find_nocase(text, self.fragment.as_str())
+                    {
                         let newbegin = resource
                             .utf8byte_to_charpos(beginbytepos + foundbytepos)
                             .expect("utf-8 byte must resolve to valid charpos");
@@ -1220,6 +1220,42 @@ impl<'a> Iterator for FindNoCaseTextIter<'a> {
             }
         }
     }
+}
+
+/// Finds the first case-insensitive occurrence of `fragment` (which must already be lowercase) in `text`.
+/// The search is done on a lowercased copy of the text, but the begin and end that are returned are UTF-8
+/// byte offsets in `text` itself: lowercasing may change the byte length of characters, so offsets
+/// in the lowercased copy can not be used on the original. Matches that do not cover whole characters
+/// of the original text are skipped.
+fn find_nocase(text: &str, fragment: &str) -> Option<(usize, usize)> {
+    let lowered = text.to_lowercase();
+    // maps byte offsets in the lowercased copy to byte offsets in the original text (character boundaries only)
+    let mut bytemap: Vec<(usize, usize)> = Vec::with_capacity(text.len() + 1);
+    let mut loweredpos = 0;
+    for (bytepos, c) in text.char_indices() {
+        bytemap.push((loweredpos, bytepos));
+        loweredpos += c.to_lowercase().map(|c| c.len_utf8()).sum::<usize>();
+    }
+    bytemap.push((loweredpos, text.len()));
+    let mut searchfrom = 0;
+    while let Some(pos) = lowered[searchfrom..].find(fragment) {
+        let begin = searchfrom + pos;
+        let end = begin + fragment.len();
+        if let (Ok(i), Ok(j)) = (
+            bytemap.binary_search_by_key(&begin, |x| x.0),
+            bytemap.binary_search_by_key(&end, |x| x.0),
+        ) {
+            return Some((bytemap[i].1, bytemap[j].1));
+        }
+        //the match begins or ends inside the lowercase expansion of a single character, look further
+        searchfrom = begin
+            + lowered[begin..]
+                .chars()
+                .next()
+                .map(|c| c.len_utf8())
+                .unwrap_or(1);
+    }
+    None
 }
 
 /// This iterator is produced by [`FindText::split_text()`] and splits a text based on a delimiter.
